@@ -168,6 +168,10 @@ Definition raw_encode (p : raw_path) : res bytes :=
   if Nat.ltb (length (rp_raw p)) meta_len then Err else
   Ok (fit (base_len (rp_base p)) (meta_encode (b_meta (rp_base p)) ++ skipn meta_len (rp_raw p))).
 
+(** the value of the struct after SerializeTo (which rewrote the first four bytes of [Raw]) *)
+Definition raw_canon (p : raw_path) : raw_path :=
+  mkRaw (rp_base p) (meta_encode (b_meta (rp_base p)) ++ skipn meta_len (rp_raw p)).
+
 Definition wf_raw (p : raw_path) : Prop :=
   wf_meta (b_meta (rp_base p)) /\ base_of_meta (b_meta (rp_base p)) = Ok (rp_base p) /\
   length (rp_raw p) = base_len (rp_base p) /\ wf_bytes (rp_raw p).
@@ -357,6 +361,13 @@ Definition path_decode (pt : N) (data : bytes) : res (path * bytes) :=
   | 2 => '(o, r) <- onehop_decode data ;; Ok (POneHop o, r)
   | 3 => '(e, r) <- epic_decode data ;; Ok (PEpic e, r)
   | _ => Err
+  end.
+
+Definition path_canon (p : path) : path :=
+  match p with
+  | PScion r => PScion (raw_canon r)
+  | PEpic e => PEpic (mkEpic (ep_ts e) (ep_ctr e) (ep_phvf e) (ep_lhvf e) (raw_canon (ep_scion e)))
+  | _ => p
   end.
 
 Definition wf_path (p : path) : Prop :=
